@@ -188,7 +188,7 @@ func defaultOutcome(name string, clients int) uint16 {
 }
 
 func compile(c *cfgSpec) *cCfg {
-	cc := &cCfg{spec: c, defTCP: defaultOutcome(c.DefaultTCP, c.Clients), defUDP: defaultOutcome(c.DefaultUDP, c.Clients)}
+	cc := &cCfg{spec: c, defTCP: defaultOutcome(c.DefaultTCP, c.nTCP()), defUDP: defaultOutcome(c.DefaultUDP, c.nUDP())}
 	cc.routes = make([]cRoute, len(c.Routes))
 	for i := range c.Routes {
 		s := &c.Routes[i]
